@@ -661,6 +661,20 @@ func marshalAt(pj *simdjson.ParsedJson, path []int) (out []marshalled) {
 	cp := *it
 	b, merr := cp.MarshalJSON()
 	out = append(out, marshalled{"Iter.MarshalJSON", b, merr})
+	// the ...Buffer variants append to what the caller already has: the prefix must survive and the same text follow it
+	pfx := func(extra int) []byte { return append(make([]byte, 0, 4+extra), "{\"p\":"...) }
+	strip := func(api string, b []byte, err error) marshalled {
+		if err == nil {
+			if !bytes.HasPrefix(b, []byte("{\"p\":")) {
+				return marshalled{api, b, fmt.Errorf("the bytes already in dst were changed: %q", b)}
+			}
+			b = b[len("{\"p\":"):]
+		}
+		return marshalled{api, b, err}
+	}
+	cp = *it
+	b, merr = cp.MarshalJSONBuffer(pfx(len(path) % 2 * 64))
+	out = append(out, strip("Iter.MarshalJSONBuffer(prefix)", b, merr))
 	switch it.Type() {
 	case simdjson.TypeArray:
 		cp = *it
@@ -670,6 +684,11 @@ func marshalAt(pj *simdjson.ParsedJson, path []int) (out []marshalled) {
 		}
 		b, merr := arr.MarshalJSON()
 		out = append(out, marshalled{"Array.MarshalJSON", b, merr})
+		cp = *it
+		if arr2, aerr2 := cp.Array(nil); aerr2 == nil {
+			b, merr = arr2.MarshalJSONBuffer(pfx(64))
+			out = append(out, strip("Array.MarshalJSONBuffer(prefix)", b, merr))
+		}
 	case simdjson.TypeObject:
 		cp = *it
 		obj, oerr := cp.Object(nil)
@@ -682,6 +701,8 @@ func marshalAt(pj *simdjson.ParsedJson, path []int) (out []marshalled) {
 		}
 		b, merr := el.MarshalJSON()
 		out = append(out, marshalled{"Elements.MarshalJSON", b, merr})
+		b, merr = el.MarshalJSONBuffer(pfx(0))
+		out = append(out, strip("Elements.MarshalJSONBuffer(prefix)", b, merr))
 	}
 	return out
 }
